@@ -23,7 +23,7 @@ structure Full where
   ws : Option WState := none
   clock : Int := 0
 
-def worldOps : List String := ["world", "clock", "advance", "init", "tick", "mutate", "mode", "state", "backend_log"]
+def worldOps : List String := ["world", "clock", "advance", "init", "tick", "mutate", "mode", "state", "backend_log", "daemon", "reload", "dstate"]
 
 /-- a client query touches the selected peers (`lastQuery`, spin-up from idle) before it is answered -/
 def touchPeers (f : Full) (j : Json) : Full :=
@@ -230,6 +230,7 @@ partial def loop (h : IO.FS.Stream) (out : IO.FS.Stream) (f : Full) : IO Unit :=
         out.flush
         loop h out f'
       else
+        let (op, j) := if op == "dquery" then ("query", j.setObjVal! "op" (Json.str "query")) else (op, j)
         let f := if op == "query" then touchPeers f j else f
         let f := if op == "dataset" || op == "sync" then { f with ws := none } else f
         let (st', res) := step f.st j
